@@ -21,4 +21,16 @@ CLAIMED["C09"] = dict(
          "iff dropped, no later section after a drop, fitting and TSIG messages untouched); the fit clause rests on C08; "
          "model tied to /repo by vm_compute correspondence at the exact packed length of every prefix +-1 each run",
     technique="machine-checked proof in Coq (case analysis over truncateLoop, induction over record lists) + model/implementation correspondence by vm_compute")
+CLAIMED["C17"] = dict(
+    text="Coq theorems (hash functions as section variables): key tag = RFC 4034 App. B for RDATA of any length, DS digest "
+         "input, NSEC3 hash recursion and case independence, Match/Cover iff (circular strict betweenness, only inside the "
+         "zone), ValidityPeriod = plain comparison, RSA/ECDSA key encodings and BIND private-key text round trip; model tied "
+         "to /repo by vm_compute correspondence incl. an executable SHA-1/SHA-256 in Coq; recorded findings in known_findings.json",
+    technique="machine-checked proof in Coq (loop invariants, induction over iterations/labels) + model/implementation correspondence by vm_compute")
+CLAIMED["C10"] = dict(
+    text="Coq theorems over an executable model of rawSignatureData/Sign/Verify with the signature primitive as a section "
+         "variable: canonical form invariance (order, duplicates, TTL, case, wildcard), sign-verify, verify soundness with all "
+         "pre-checks, injectivity of the signed octets (any alteration fails under the stated idealisation); model tied to /repo "
+         "by vm_compute correspondence on the hooked rawSignatureData and independent crypto on the model's octets",
+    technique="machine-checked proof in Coq (permutation/sorting lemmas, unique parsing of the signed octets) + model/implementation correspondence by vm_compute")
 NOT_YET = {}
